@@ -535,11 +535,17 @@ func c19DescOp(op *scn.Op, fd protoreflect.FileDescriptor, reg *protoregistry.Fi
 	return sim.OpResult{Digest: h.h}
 }
 
+// c19RealTypes is the global Types registry of the process as the generated code filled it at init.
+var c19RealTypes = protoregistry.GlobalTypes
+
 // c19MsgOp runs a behaviour-observing operation through message m (which is
 // backed by the MessageInfo under test). wire is the content to decode.
 func c19MsgOp(op string, newMsg func() proto.Message, wire []byte) sim.OpResult {
 	h := newHasher()
-	uo := proto.UnmarshalOptions{AllowPartial: true}
+	// extensions are resolved against the process's real global registry, which no client writes to: the
+	// swapped-in one gains extension types while other clients register, and two decodes of one operation
+	// would otherwise see different registries (first unknown field, then extension)
+	uo := proto.UnmarshalOptions{AllowPartial: true, Resolver: c19RealTypes}
 	mo := proto.MarshalOptions{AllowPartial: true, Deterministic: true}
 	switch strings.TrimPrefix(op, "mi:") {
 	case "roundtrip":
